@@ -1041,7 +1041,7 @@ func dsTemplate(g *Gen, kind string) []Op {
 func init() {
 	register(&Check{
 		ID: "C05", Level: "exploration",
-		NCases: func(t string) int { return 16 + 16 + tier(t, 16, 64) + tier(t, 120, 4000) },
+		NCases: func(t string) int { return 16 + 16 + tier(t, 16, 64) + tier(t, 120, 3000) },
 		Run: func(c *CaseCtx) {
 			nRand := tier(c.Tier, 16, 64)
 			switch {
@@ -1057,7 +1057,7 @@ func init() {
 				dsTxHistory(c, "list", "tx-list")
 			}
 		},
-		Rule: "layer (a), exported ds/list.List: every model state (lists of length<=4 over {a,b,'',|,a|b}) x 3 construction paths x every operation x every argument (indexes/counts -n-2..n+1 and MinInt64/MaxInt64/+-2^31), plus all operation sequences of bounded depth over a reduced alphabet, plus random sequences of length 30; " +
+		Rule: "[also: layer (a) pushes the list's own LRange results back; layer (b): 1 case in 16 is a large-geometry history (segments of 9-330 KB: >1000 live records in one segment, or values of 1-69 KB around the 4 KiB and 64 KiB marks and with whole pages of zero bytes; Merge and reopen twice, compared with the model); a quarter of the histories run on a handle that completed a Merge before any list existed] layer (a), exported ds/list.List: every model state (lists of length<=4 over {a,b,'',|,a|b}) x 3 construction paths x every operation x every argument (indexes/counts -n-2..n+1 and MinInt64/MaxInt64/+-2^31), plus all operation sequences of bounded depth over a reduced alphabet, plus random sequences of length 30; " +
 			"layer (b): one list operation per write transaction through the public Tx API (KeyVal mode, small segments), full observation after every commit, reopen; results and resulting list compared with a Redis-style model that accepts the documented error-instead-of-clamp choices; " +
 			"non-trivial = chunk explored or history used >=4 distinct mutators and rotated a segment; distinct by operation-sequence hash",
 		Assumptions: []string{"Redis list semantics as the model, with either-result tolerance where nutsdb documents an error (negative LSet index, |count|>size for LRem, empty LRange/LTrim result)"},
@@ -1070,7 +1070,7 @@ func init() {
 	})
 	register(&Check{
 		ID: "C06", Level: "exploration",
-		NCases: func(t string) int { return 1 + tier(t, 150, 4000) },
+		NCases: func(t string) int { return 1 + tier(t, 150, 3000) },
 		Run: func(c *CaseCtx) {
 			if c.Case == 0 {
 				dsSetExhaustive(c, tier(c.Tier, 3, 4))
@@ -1082,7 +1082,7 @@ func init() {
 			}
 			dsTxHistory(c, "set", "tx-set")
 		},
-		Rule: "layer (a), exported ds/set.Set: BFS over every reachable state of two keys x members {'',a,b} with every operation and argument in every state, plus all operation sequences of bounded depth; " +
+		Rule: "[also: 1 case in 16 is a large-geometry history (segments of 9-330 KB: >1000 live records in one segment, or values of 1-69 KB around the 4 KiB and 64 KiB marks and with whole pages of zero bytes; Merge and reopen twice, compared with the model); a quarter of the histories run on a handle that completed a Merge before the history] layer (a), exported ds/set.Set: BFS over every reachable state of two keys x members {'',a,b} with every operation and argument in every state, plus all operation sequences of bounded depth; " +
 			"layer (b): one set operation per write transaction (SAdd/SRem/SPop/SMoveByOneBucket/SMoveByTwoBuckets) with all reads compared after each commit, reopen in the middle and at the end (SMove durability); non-trivial as in C05",
 		Assumptions: []string{"mathematical-set model; SMove of a non-member is 'false, no change' (Redis) and may also be reported as an error"},
 		Floor: func(t string, a map[string]int64) string {
@@ -1094,7 +1094,7 @@ func init() {
 	})
 	register(&Check{
 		ID: "C07", Level: "exploration",
-		NCases: func(t string) int { return 25 + tier(t, 8, 64) + tier(t, 120, 4000) },
+		NCases: func(t string) int { return 25 + tier(t, 8, 64) + tier(t, 120, 2500) },
 		Run: func(c *CaseCtx) {
 			nRand := tier(c.Tier, 8, 64)
 			switch {
@@ -1108,7 +1108,7 @@ func init() {
 				dsTxHistory(c, "zset", "tx-zset")
 			}
 		},
-		Rule: "layer (a), exported ds/zset.SortedSet: all 625 states of member keys {'',a,b,c} x scores {-1,0,0.5,1} (many ties), each built with several random skip-list layouts, x every operation x every argument (rank bounds -n-2..n+2 both orders, score bounds below min..above max both orders x exclusive flags x limits); skip-list structural walker and full-membership comparison after every mutation; every returned node must be the registered member (never the header); plus random sequences; " +
+		Rule: "[also: 1 case in 16 is a large-geometry history (segments of 9-330 KB: >1000 live records in one segment, or values of 1-69 KB around the 4 KiB and 64 KiB marks and with whole pages of zero bytes; Merge and reopen twice, compared with the model); a quarter of the histories run on a handle that completed a Merge before the history] layer (a), exported ds/zset.SortedSet: all 625 states of member keys {'',a,b,c} x scores {-1,0,0.5,1} (many ties), each built with several random skip-list layouts, x every operation x every argument (rank bounds -n-2..n+2 both orders, score bounds below min..above max both orders x exclusive flags x limits); skip-list structural walker and full-membership comparison after every mutation; every returned node must be the registered member (never the header); plus random sequences; " +
 			"layer (b): one sorted-set mutation per transaction with all 13 read APIs compared after each commit, reopen",
 		Assumptions: []string{"order is (score, key); ranks are 1-based, negative ranks count from the end, out-of-range ranks are clamped, as documented on GetByRankRange"},
 		Floor: func(t string, a map[string]int64) string {
